@@ -7,7 +7,7 @@ from typing import Optional
 from . import callgraph as _cg
 from .cfg import CFG
 from .core import FuncInfo, Index
-from .dataflow import Defs
+from .dataflow import Defs, Reaching
 
 
 class Ctx:
@@ -16,6 +16,7 @@ class Ctx:
         self._cg: Optional[_cg.CallGraph] = None
         self._cfgs: dict[str, CFG] = {}
         self._defs: dict[str, Defs] = {}
+        self._reach: dict[str, Reaching] = {}
 
     @property
     def cg(self) -> _cg.CallGraph:
@@ -32,6 +33,12 @@ class Ctx:
         if fi.qualname not in self._defs:
             self._defs[fi.qualname] = Defs(fi.node)
         return self._defs[fi.qualname]
+
+    def reach(self, fi: FuncInfo) -> Reaching:
+        if fi.qualname not in self._reach:
+            self._reach[fi.qualname] = Reaching(fi.node, self.cfg(fi),
+                                                self.defs(fi))
+        return self._reach[fi.qualname]
 
     def func(self, spec: str, optional: bool = False) -> FuncInfo:
         return self.index.func(spec, optional=optional)  # type: ignore
